@@ -1,4 +1,470 @@
-import OFCore.Period
+import OFCore.Lemmas.Period
+/-!
+# C04 — period arithmetic agrees with the calendar
+
+Every dated period denotes the closed interval of proleptic ordinals `[p.lo, p.hi]`
+(`hi = ord (start + size units) − 1`).  All theorems quantify over *all* valid start dates
+(every year ≥ 1), all positive sizes, all units: no bound.  Where the Python code can raise
+(year outside 1..9999 in pendulum) the statement is "if it returns a value, the value is …";
+totality inside the representable range is stated separately.
+-/
 namespace OFCore
-theorem C04_placeholder : True := trivial
+
+/-- The last day of a period is the day before `start + size units`, and it is a real date. -/
+theorem C04_stop_is_last_day (p : Period) (h : p.WF) (s : Date) (hs : p.stop = .ok s) :
+    s.Valid ∧ ord s = p.hi ∧ p.lo ≤ p.hi :=
+  ⟨(stop_spec p h s hs).1, (stop_spec p h s hs).2, lo_le_hi p h⟩
+
+example : (Period.mk .year ⟨2012, 2, 29⟩ 1).WF ∧ (Period.mk .year ⟨2012, 2, 29⟩ 1).stop = .ok ⟨2013, 2, 27⟩ := by
+  decide +kernel
+
+/-- `days` and `size_in_days` count exactly the days of the period, for every dated unit. -/
+theorem C04_days_count (p : Period) (h : p.WF) (k : Int) :
+    (p.days = .ok k → k = p.hi - p.lo + 1) ∧ (p.sizeInDays = .ok k → k = p.hi - p.lo + 1) := by
+  constructor
+  · intro hk
+    unfold Period.days at hk
+    cases hs : p.stop with
+    | error e => rw [hs] at hk; cases hk
+    | ok s =>
+      rw [hs] at hk
+      simp only [bind, Except.bind] at hk
+      split at hk
+      · injection hk with hk
+        have := (stop_spec p h s hs).2
+        unfold Period.lo; omega
+      · cases hk
+  · intro hk
+    obtain ⟨hu, hv, hsz⟩ := h
+    unfold Period.sizeInDays at hk
+    cases hp : p.unit <;> rw [hp] at hk <;> simp only at hk
+    · injection hk with hk; unfold Period.hi Period.lo; simp only [hp]; omega
+    · injection hk with hk; unfold Period.hi Period.lo; simp only [hp]; omega
+    · injection hk with hk; unfold Period.hi Period.lo; simp only [hp]; omega
+    · exact spanDays_spec p ⟨hu, hv, hsz⟩ (Or.inr hp) k hk
+    · exact spanDays_spec p ⟨hu, hv, hsz⟩ (Or.inl hp) k hk
+    · cases hk
+
+example : (Period.mk .month ⟨2020, 2, 1⟩ 1).days = .ok 29 ∧ (Period.mk .year ⟨2021, 10, 1⟩ 3).sizeInDays = .ok 1096 := by
+  decide +kernel
+
+/-- Sizes expressed in a smaller unit of the same family. -/
+theorem C04_size_in_smaller_unit (p : Period) (h : p.WF) :
+    (p.unit = .year → p.sizeInMonths = .ok (12 * p.size)) ∧
+    (p.unit = .month → p.sizeInMonths = .ok p.size) ∧
+    (p.unit = .week → p.sizeInDays = .ok (7 * p.size) ∧ p.sizeInWeekdays = .ok (7 * p.size) ∧
+        7 * p.size = p.hi - p.lo + 1) ∧
+    (p.unit = .weekday → p.sizeInWeekdays = .ok p.size ∧ p.size = p.hi - p.lo + 1) ∧
+    (∀ k, (p.unit = .year ∨ p.unit = .month) → p.sizeInDays = .ok k → k = p.hi - p.lo + 1) := by
+  refine ⟨?_, ?_, ?_, ?_, ?_⟩
+  · intro hu; simp only [Period.sizeInMonths, hu, if_true]; congr 1; omega
+  · intro hu; simp [Period.sizeInMonths, hu]
+  · intro hu
+    refine ⟨?_, ?_, ?_⟩
+    · simp only [Period.sizeInDays, hu]; congr 1; omega
+    · simp only [Period.sizeInWeekdays, hu]; congr 1; omega
+    · unfold Period.hi Period.lo; simp only [hu]; omega
+  · intro hu
+    refine ⟨by simp only [Period.sizeInWeekdays, hu], ?_⟩
+    unfold Period.hi Period.lo; simp only [hu]; omega
+  · intro k _ hk; exact (C04_days_count p h k).2 hk
+
+/-- `contains` is inclusion of the day sets. -/
+theorem C04_contains_iff_subset (p q : Period) (hp : p.WF) (hq : q.WF) (b : Bool)
+    (h : p.contains q = .ok b) : (b = true ↔ p.lo ≤ q.lo ∧ q.hi ≤ p.hi) := by
+  unfold Period.contains at h
+  cases hps : p.stop with
+  | error e => rw [hps] at h; cases h
+  | ok ps =>
+    cases hqs : q.stop with
+    | error e => rw [hps, hqs] at h; cases h
+    | ok qs =>
+      rw [hps, hqs] at h
+      simp only [bind, Except.bind] at h
+      injection h with h
+      obtain ⟨hpv, hpo⟩ := stop_spec p hp ps hps
+      obtain ⟨hqv, hqo⟩ := stop_spec q hq qs hqs
+      rw [← h, decide_eq_true_iff, le_iff_ord_le _ _ hp.2.1 hq.2.1, le_iff_ord_le _ _ hqv hpv]
+      unfold Period.lo; omega
+
+example : (Period.mk .year ⟨2015, 1, 1⟩ 1).contains (Period.mk .month ⟨2015, 12, 1⟩ 1) = .ok true ∧
+    (Period.mk .year ⟨2015, 1, 1⟩ 1).contains (Period.mk .week ⟨2015, 12, 28⟩ 1) = .ok false := by
+  decide +kernel
+
+theorem Date.eq_mk (c : Date) (y m d : Int) (hy : c.y = y) (hm : c.m = m) (hd : c.d = d) : c = ⟨y, m, d⟩ := by
+  cases c; simp only at hy hm hd; rw [hy, hm, hd]
+
+/-- ordinal bounds of the requested range, defaulting to the period's own bounds -/
+def rangeLo (p : Period) (a : Option Date) : Int := (a.map ord).getD p.lo
+def rangeHi (p : Period) (b : Option Date) : Int := (b.map ord).getD p.hi
+
+/-- `intersection` returns `None` exactly when the day sets are disjoint, and otherwise a period
+    (of whatever unit is re-derived) whose days are exactly the common days. -/
+theorem C04_intersection_days (p : Period) (hp : p.WF) (a b : Option Date)
+    (ha : ∀ x, a = some x → x.Valid) (hb : ∀ x, b = some x → x.Valid)
+    (hab : rangeLo p a ≤ rangeHi p b) (r : Option Period)
+    (h : p.intersection a b = .ok r) :
+    (r = none ↔ min p.hi (rangeHi p b) < max p.lo (rangeLo p a)) ∧
+    (∀ q, r = some q → q.lo = max p.lo (rangeLo p a) ∧ q.hi = min p.hi (rangeHi p b)) := by
+  have hlh := lo_le_hi p hp
+  unfold Period.intersection at h
+  split at h
+  · -- both bounds absent
+    rename_i hnn
+    injection h with h
+    obtain ⟨h1, h2⟩ := hnn
+    have ea : a = none := by cases a <;> simp_all
+    have eb : b = none := by cases b <;> simp_all
+    subst ea eb
+    simp only [rangeLo, rangeHi, Option.map, Option.getD] at hab ⊢
+    subst h
+    refine ⟨by simp; omega, ?_⟩
+    intro q hq; injection hq with hq; subst hq; omega
+  · cases hps : p.stop with
+    | error e => rw [hps] at h; cases h
+    | ok ps =>
+      rw [hps] at h
+      simp only [bind, Except.bind] at h
+      obtain ⟨hpsv, hpso⟩ := stop_spec p hp ps hps
+      have hsv := hp.2.1
+      -- the effective bounds as dates
+      have hav : (a.getD p.start).Valid := by cases a with
+        | none => exact hsv
+        | some x => exact ha x rfl
+      have hbv : (b.getD ps).Valid := by cases b with
+        | none => exact hpsv
+        | some x => exact hb x rfl
+      have hao : ord (a.getD p.start) = rangeLo p a := by
+        cases a <;> simp [rangeLo, Period.lo]
+      have hbo : ord (b.getD ps) = rangeHi p b := by
+        cases b <;> simp [rangeHi, hpso]
+      have hlo : p.lo = ord p.start := rfl
+      have hlt1 := lt_iff_ord_lt (b.getD ps) p.start hbv hsv
+      have hlt2 := lt_iff_ord_lt ps (a.getD p.start) hpsv hav
+      split at h
+      · rename_i hdis
+        injection h with h; subst h
+        refine ⟨by simp only [true_iff]; rcases hdis with hd | hd
+                   · have := hlt1.1 hd; omega
+                   · have := hlt2.1 hd; omega, by intro q hq; cases hq⟩
+      · rename_i hdis
+        have hnd1 : ¬ ord (b.getD ps) < ord p.start := fun hh => hdis (Or.inl (hlt1.2 hh))
+        have hnd2 : ¬ ord ps < ord (a.getD p.start) := fun hh => hdis (Or.inr (hlt2.2 hh))
+        obtain ⟨hisv, hiso⟩ := ord_max' p.start (a.getD p.start) hsv hav
+        obtain ⟨hiev, hieo⟩ := ord_min' ps (b.getD ps) hpsv hbv
+        have hL : ord (Date.max' p.start (a.getD p.start)) = max p.lo (rangeLo p a) := by
+          rw [hiso, hao, hlo]
+        have hH : ord (Date.min' ps (b.getD ps)) = min p.hi (rangeHi p b) := by
+          rw [hieo, hbo, hpso]
+        have hne : ¬ (min p.hi (rangeHi p b) < max p.lo (rangeLo p a)) := by omega
+        generalize Date.max' p.start (a.getD p.start) = is at *
+        generalize Date.min' ps (b.getD ps) = ie at *
+        have fin : ∀ q : Period, q.lo = ord is → q.hi = ord ie → r = some q →
+            (r = none ↔ min p.hi (rangeHi p b) < max p.lo (rangeLo p a)) ∧
+            (∀ q', r = some q' → q'.lo = max p.lo (rangeLo p a) ∧ q'.hi = min p.hi (rangeHi p b)) := by
+          intro q h1 h2 hr
+          subst hr
+          refine ⟨by simp; omega, ?_⟩
+          intro q' hq'; injection hq' with hq'; subst hq'; omega
+        split at h
+        · rename_i hsame
+          injection h with h
+          exact fin p (by rw [hsame.1]; rfl) (by rw [hsame.2]; exact hpso.symm) h.symm
+        · split at h
+          · rename_i hy
+            injection h with h
+            obtain ⟨h1, h2, h3, h4⟩ := hy
+            refine fin ⟨.year, is, ie.y - is.y + 1⟩ rfl ?_ h.symm
+            have e : is = ⟨is.y, 1, 1⟩ := Date.eq_mk _ _ _ _ rfl h2 h1
+            rw [e, hi_year_jan]
+            have e2 : ie = ⟨ie.y, 12, 31⟩ := Date.eq_mk _ _ _ _ rfl h4 h3
+            rw [e2]; simp only; congr 2; omega
+          · split at h
+            · cases h
+            · split at h
+              · rename_i hm
+                injection h with h
+                obtain ⟨h1, h2⟩ := hm
+                refine fin ⟨.month, is, (ie.y - is.y) * 12 + ie.m - is.m + 1⟩ rfl ?_ h.symm
+                have e : is = ⟨is.y, is.m, 1⟩ := Date.eq_mk _ _ _ _ rfl rfl h1
+                have e2 : ie = ⟨ie.y, ie.m, dim ie.y ie.m⟩ := Date.eq_mk _ _ _ _ rfl rfl h2
+                rw [e]; simp only
+                rw [hi_month_first is.y is.m ie.y ie.m ⟨hiev.2.1, hiev.2.2.1⟩ hiev.1]
+                rw [← e2]
+              · split at h
+                · injection h with h
+                  refine fin ⟨.day, is, ord ie - ord is + 1⟩ rfl ?_ h.symm
+                  simp only [Period.hi]; omega
+                · cases h
+
+example : (Period.mk .year ⟨2015, 1, 1⟩ 2).intersection (some ⟨2015, 3, 1⟩) (some ⟨2016, 2, 29⟩)
+    = .ok (some ⟨.month, ⟨2015, 3, 1⟩, 12⟩) := by decide +kernel
+
+theorem shiftDate_zero (s : Date) (hv : s.Valid) (u : DUnit) : shiftDate s 0 u = s := by
+  cases u <;> simp only [shiftDate, addDays, Int.mul_zero, Int.add_zero]
+  all_goals first | exact ofOrd_ord s hv | exact addMonths_zero s hv
+
+theorem offsetsFrom_tiles (s : Date) (hv : s.Valid) (u : DUnit) (hu : u ≠ .eternity)
+    (hal : (u = .month ∨ u = .year) → s.d = 1) (n : Int) (hn : 0 ≤ n) (qs : List Period)
+    (h : offsetsFrom ⟨u, s, 1⟩ u n = .ok qs) :
+    Tiles qs (ord s) (ord (shiftDate s n u) - 1) ∧ ∀ q ∈ qs, q.unit = u ∧ q.size = 1 := by
+  unfold offsetsFrom at h
+  rw [List.range_eq_range'] at h
+  have := tiles_range' s hv u hu hal n.toNat 0 qs h
+  have e : ((0 + n.toNat : Nat) : Int) = n := by omega
+  rw [e] at this
+  simpa [shiftDate_zero s hv u] using this
+
+/-- weights of the generated table: a unit never outweighs a larger unit of its family -/
+theorem weight_guard_table : ∀ a b : DUnit, b.family = a.family → b.rank ≤ a.rank → a ≠ .eternity →
+    ¬ (unitWeight a < unitWeight b) := by
+  intro a b; cases a <;> cases b <;> decide +kernel
+
+/-- Splitting into sub-periods of an equal or smaller unit of the same family, from a start
+    aligned to that unit, yields consecutive, non-overlapping periods of size one whose union
+    is exactly the period. -/
+theorem C04_subperiods_tile (p : Period) (u : DUnit) (hp : p.WF)
+    (hfam : u.family = p.unit.family) (hle : u.rank ≤ p.unit.rank) (hal : AlignedTo p.start u)
+    (qs : List Period) (h : p.subperiods u = .ok qs) :
+    Tiles qs p.lo p.hi ∧ ∀ q ∈ qs, q.unit = u ∧ q.size = 1 := by
+  obtain ⟨hne, hv, hsz⟩ := hp
+  have h1 := ord_pos _ hv
+  unfold Period.subperiods at h
+  rw [if_neg (weight_guard_table p.unit u hfam hle hne)] at h
+  have hlo : p.lo = ord p.start := rfl
+  cases hu : u <;> rw [hu] at h hal hfam hle <;> simp only at h
+  · -- weekday pieces
+    cases hw : p.sizeInWeekdays with
+    | error e => rw [hw] at h; cases h
+    | ok n =>
+      rw [hw] at h; simp only [bind, Except.bind] at h
+      have hn : n = p.hi - p.lo + 1 := by
+        cases hpu : p.unit <;> rw [hpu] at hfam hle <;> simp only [DUnit.family, DUnit.rank] at hfam hle <;> try omega
+        · have := (C04_size_in_smaller_unit p ⟨hne, hv, hsz⟩).2.2.2.1 hpu
+          rw [this.1] at hw; injection hw with hw; omega
+        · have := (C04_size_in_smaller_unit p ⟨hne, hv, hsz⟩).2.2.1 hpu
+          rw [this.2.1] at hw; injection hw with hw; omega
+      have hll := lo_le_hi p ⟨hne, hv, hsz⟩
+      have := offsetsFrom_tiles p.start hv .weekday (by decide) (by intro h; rcases h with h | h <;> cases h) n (by omega) qs h
+      simp only [shiftDate] at this
+      rw [ord_addDays _ _ (by omega)] at this
+      rw [hlo]; rw [hlo] at hn
+      have e : ord p.start + n - 1 = p.hi := by omega
+      rw [e] at this; exact this
+  · -- week pieces: the period is a week period starting on a Monday
+    have hpu : p.unit = .week := by
+      cases hpu : p.unit <;> rw [hpu] at hfam hle <;> simp only [DUnit.family, DUnit.rank] at hfam hle <;> first | rfl | omega
+    have hfw : p.firstWeek = .ok ⟨.week, p.start, 1⟩ ∨ ∃ e, p.firstWeek = .error e := by
+      unfold Period.firstWeek instOffset
+      simp only [reduceCtorEq, if_false]
+      split
+      · have hsw : startOfWeek p.start = p.start := by
+          unfold startOfWeek; rw [hal]; simp only [Int.sub_zero]; exact ofOrd_ord _ hv
+        rw [hsw]
+        unfold chk; split
+        · left; rfl
+        · right; exact ⟨_, rfl⟩
+      · right; exact ⟨_, rfl⟩
+    rcases hfw with hfw | ⟨e, hfw⟩
+    · rw [hfw] at h
+      have hw : p.sizeInWeeks = .ok p.size := by simp only [Period.sizeInWeeks, hpu]
+      rw [hw] at h; simp only [bind, Except.bind] at h
+      have := offsetsFrom_tiles p.start hv .week (by decide) (by intro h; rcases h with h | h <;> cases h) p.size (by omega) qs h
+      simp only [shiftDate] at this
+      rw [ord_addDays _ _ (by omega)] at this
+      have e : p.hi = ord p.start + 7 * p.size - 1 := by simp only [Period.hi, hpu]
+      rw [hlo, e]; exact this
+    · rw [hfw] at h; cases h
+  · -- day pieces
+    cases hw : p.sizeInDays with
+    | error e => rw [hw] at h; cases h
+    | ok n =>
+      rw [hw] at h; simp only [bind, Except.bind] at h
+      have hn : n = p.hi - p.lo + 1 := (C04_days_count p ⟨hne, hv, hsz⟩ n).2 hw
+      have hll := lo_le_hi p ⟨hne, hv, hsz⟩
+      have := offsetsFrom_tiles p.start hv .day (by decide) (by intro h; rcases h with h | h <;> cases h) n (by omega) qs h
+      simp only [shiftDate] at this
+      rw [ord_addDays _ _ (by omega)] at this
+      rw [hlo]; rw [hlo] at hn
+      have e : ord p.start + n - 1 = p.hi := by omega
+      rw [e] at this; exact this
+  · -- month pieces: month or year period starting on the first of a month
+    have hal : p.start.d = 1 := hal
+    have hfm : p.firstMonth = .ok ⟨.month, p.start, 1⟩ := by
+      unfold Period.firstMonth instOffset
+      simp only [reduceCtorEq, if_false, bind, Except.bind]
+      have : (Date.mk p.start.y p.start.m 1) = p.start := (Date.eq_mk p.start _ _ _ rfl rfl hal).symm
+      rw [this]
+    rw [hfm] at h
+    cases hpu : p.unit <;> rw [hpu] at hfam hle <;> simp only [DUnit.family, DUnit.rank] at hfam hle <;> try omega
+    · have hw : p.sizeInMonths = .ok p.size := by simp [Period.sizeInMonths, hpu]
+      rw [hw] at h; simp only [bind, Except.bind] at h
+      have := offsetsFrom_tiles p.start hv .month (by decide) (fun _ => hal) p.size (by omega) qs h
+      simp only [shiftDate] at this
+      have e : p.hi = ord (addMonths p.start p.size) - 1 := by simp only [Period.hi, hpu]
+      rw [hlo, e]; exact this
+    · have hw : p.sizeInMonths = .ok (p.size * 12) := by simp [Period.sizeInMonths, hpu]
+      rw [hw] at h; simp only [bind, Except.bind] at h
+      have := offsetsFrom_tiles p.start hv .month (by decide) (fun _ => hal) (p.size * 12) (by omega) qs h
+      simp only [shiftDate] at this
+      have e : p.hi = ord (addMonths p.start (p.size * 12)) - 1 := by
+        simp only [Period.hi, hpu]; rw [Int.mul_comm]
+      rw [hlo, e]; exact this
+  · -- year pieces: a year period starting on 1 January
+    have hpu : p.unit = .year := by
+      cases hpu : p.unit <;> rw [hpu] at hfam hle <;> simp only [DUnit.family, DUnit.rank] at hfam hle <;> first | rfl | omega
+    obtain ⟨halm, hald⟩ : p.start.m = 1 ∧ p.start.d = 1 := hal
+    have hty : p.thisYear = .ok ⟨.year, p.start, 1⟩ := by
+      unfold Period.thisYear instOffset
+      simp only [reduceCtorEq, if_false, bind, Except.bind]
+      have : (Date.mk p.start.y 1 1) = p.start := (Date.eq_mk p.start _ _ _ rfl halm hald).symm
+      rw [this]
+    rw [hty] at h; simp only [bind, Except.bind] at h
+    have := offsetsFrom_tiles p.start hv .year (by decide) (fun _ => hald) p.size (by omega) qs h
+    simp only [shiftDate] at this
+    have e : p.hi = ord (addMonths p.start (12 * p.size)) - 1 := by simp only [Period.hi, hpu]
+    rw [hlo, e]; exact this
+  · cases h
+
+example : ∃ qs, (Period.mk .month ⟨2020, 2, 1⟩ 1).subperiods .day = .ok qs ∧ qs.length = 29 := by
+  refine ⟨_, rfl, ?_⟩; decide +kernel
+
+/-- `get_subperiods` refuses to split a unit into a heavier one (weights from the generated
+    table), in particular into any larger unit of its own family. -/
+theorem C04_unit_weight_guard (p : Period) (u : DUnit) :
+    (unitWeight p.unit < unitWeight u → ∃ e, p.subperiods u = .error e) ∧
+    (u.family = p.unit.family → p.unit.rank < u.rank → ∃ e, p.subperiods u = .error e) := by
+  have key : unitWeight p.unit < unitWeight u → ∃ e, p.subperiods u = .error e := by
+    intro h; unfold Period.subperiods; rw [if_pos h]; exact ⟨_, rfl⟩
+  refine ⟨key, ?_⟩
+  intro hf hr
+  apply key
+  revert hf hr
+  cases p.unit <;> cases u <;> decide +kernel
+
+theorem ofOrd_nonpos (o : Int) (h : o ≤ 0) : (ofOrd o).y ≤ 0 := by
+  unfold ofOrd
+  simp only
+  split <;> simp only <;> omega
+
+theorem ord_of_valid_ofOrd (o : Int) (h : (ofOrd o).Valid) : 1 ≤ o := by
+  by_cases h1 : 1 ≤ o
+  · exact h1
+  · have := ofOrd_nonpos o (by omega); have := h.1; omega
+
+theorem addDays_back (s : Date) (hv : s.Valid) (k : Int) (hv1 : (addDays s k).Valid) :
+    addDays (addDays s k) (-k) = s := by
+  have h1 : 1 ≤ ord s + k := ord_of_valid_ofOrd _ hv1
+  unfold addDays at *
+  rw [ord_ofOrd _ h1]
+  have : ord s + k + -k = ord s := by omega
+  rw [this]; exact ofOrd_ord s hv
+
+theorem addMonths_back (s : Date) (hv : s.Valid) (k : Int) (hd : s.d ≤ 28) :
+    addMonths (addMonths s k) (-k) = s := by
+  obtain ⟨_, hm1, hm12, hd1, _⟩ := hv
+  simp only [addMonths]
+  have d1 := dim_ge ((s.y * 12 + (s.m - 1) + k) / 12) ((s.y * 12 + (s.m - 1) + k) % 12 + 1)
+  have e : (s.y * 12 + (s.m - 1) + k) / 12 * 12 + ((s.y * 12 + (s.m - 1) + k) % 12 + 1 - 1) + -k
+      = s.y * 12 + (s.m - 1) := by omega
+  rw [e]
+  have ey : (s.y * 12 + (s.m - 1)) / 12 = s.y := by omega
+  have em : (s.y * 12 + (s.m - 1)) % 12 + 1 = s.m := by omega
+  rw [ey, em]
+  have d2 := dim_ge s.y s.m
+  exact (Date.eq_mk s _ _ _ rfl rfl (by omega)).symm
+
+/-- Shifting by `k` units and back returns the original period: always for day, week and
+    weekday shifts, and for month and year shifts whenever no end-of-month clipping can occur
+    (start day ≤ 28). -/
+theorem C04_offset_roundtrip (p : Period) (hv : p.start.Valid) (k : Int) (u : DUnit)
+    (hclip : (u = .month ∨ u = .year) → p.start.d ≤ 28) (q r : Period)
+    (h1 : p.offset (.n k) (some u) = .ok q) (h2 : q.offset (.n (-k)) (some u) = .ok r) : r = p := by
+  obtain ⟨_, hq⟩ := offset_n_ok _ _ _ _ h1
+  obtain ⟨hqv, hr⟩ := offset_n_ok _ _ _ _ h2
+  rw [hq] at hr hqv
+  simp only [Option.getD_some] at hr hqv
+  rw [hr]
+  have : shiftDate (shiftDate p.start k u) (-k) u = p.start := by
+    cases u <;> simp only [shiftDate] at hqv ⊢
+    · exact addDays_back _ hv _ hqv
+    · have := addDays_back _ hv (7 * k) hqv
+      have e : 7 * -k = -(7 * k) := by omega
+      rw [e]; exact this
+    · exact addDays_back _ hv _ hqv
+    · exact addMonths_back _ hv _ (hclip (Or.inl rfl))
+    · have := addMonths_back _ hv (12 * k) (hclip (Or.inr rfl))
+      have e : 12 * -k = -(12 * k) := by omega
+      rw [e]; exact this
+    · exact addDays_back _ hv _ hqv
+  rw [this]
+
+/-- the hypothesis on clipping is needed: 31 January + 1 month − 1 month = 29 January (2020) -/
+theorem C04_offset_clip_counterexample :
+    ((Period.mk .month ⟨2020, 1, 31⟩ 1).offset (.n 1) none >>= fun q => q.offset (.n (-1)) none)
+      = .ok ⟨.month, ⟨2020, 1, 29⟩, 1⟩ := by decide +kernel
+
+/-- Named reference periods, characterised from the start date. -/
+theorem C04_named_periods (p : Period) (hv : p.start.Valid) :
+    p.thisYear = .ok ⟨.year, ⟨p.start.y, 1, 1⟩, 1⟩ ∧
+    p.firstMonth = .ok ⟨.month, ⟨p.start.y, p.start.m, 1⟩, 1⟩ ∧
+    p.firstDay = ⟨.day, p.start, 1⟩ ∧ p.firstWeekday = ⟨.weekday, p.start, 1⟩ ∧
+    (∀ q, p.firstWeek = .ok q → q.unit = .week ∧ q.size = 1 ∧ q.start.Valid ∧
+        weekday0 (ord q.start) = 0 ∧ ord q.start ≤ ord p.start ∧ ord p.start < ord q.start + 7) ∧
+    (∀ q, p.lastMonth = .ok q → q = ⟨.month, addMonths ⟨p.start.y, p.start.m, 1⟩ (-1), 1⟩) ∧
+    (∀ q, p.last3Months = .ok q → q = ⟨.month, addMonths ⟨p.start.y, p.start.m, 1⟩ (-3), 3⟩) ∧
+    (∀ q, p.lastYear = .ok q → q = ⟨.year, ⟨p.start.y - 1, 1, 1⟩, 1⟩) ∧
+    (∀ q, p.n2 = .ok q → q = ⟨.year, ⟨p.start.y - 2, 1, 1⟩, 1⟩) := by
+  have hty : p.thisYear = .ok ⟨.year, ⟨p.start.y, 1, 1⟩, 1⟩ := by
+    unfold Period.thisYear instOffset; simp only [reduceCtorEq, if_false, bind, Except.bind]
+  have hfm : p.firstMonth = .ok ⟨.month, ⟨p.start.y, p.start.m, 1⟩, 1⟩ := by
+    unfold Period.firstMonth instOffset; simp only [reduceCtorEq, if_false, bind, Except.bind]
+  refine ⟨hty, hfm, rfl, rfl, ?_, ?_, ?_, ?_, ?_⟩
+  · intro q hq
+    unfold Period.firstWeek instOffset at hq
+    simp only [reduceCtorEq, if_false] at hq
+    split at hq
+    · cases hc : chk (startOfWeek p.start) with
+      | error e => rw [hc] at hq; cases hq
+      | ok d =>
+        rw [hc] at hq
+        simp only [Except.map, bind, Except.bind] at hq
+        injection hq with hq; subst hq
+        obtain ⟨rfl, hy1, _⟩ := chk_ok hc
+        have hw := weekday0_range (ord p.start)
+        have hpos : 1 ≤ ord p.start - weekday0 (ord p.start) := by
+          by_cases hh : 1 ≤ ord p.start - weekday0 (ord p.start)
+          · exact hh
+          · have := ofOrd_nonpos (ord p.start - weekday0 (ord p.start)) (by omega)
+            unfold startOfWeek at hy1; omega
+        have ho := ord_startOfWeek p.start hv hpos
+        refine ⟨rfl, rfl, ?_, ?_, ?_, ?_⟩
+        · exact ofOrd_valid _ hpos
+        · exact weekday0_startOfWeek p.start hv hpos
+        · simp only; omega
+        · simp only; omega
+    · cases hq
+  · intro q hq
+    unfold Period.lastMonth at hq; rw [hfm] at hq; simp only [bind, Except.bind] at hq
+    obtain ⟨_, hqe⟩ := offset_n_ok _ _ _ _ hq
+    simpa [shiftDate] using hqe
+  · intro q hq
+    unfold Period.last3Months at hq; rw [hfm] at hq; simp only [bind, Except.bind] at hq
+    obtain ⟨_, hqe⟩ := offset_n_ok _ _ _ _ hq
+    simpa [shiftDate] using hqe
+  · intro q hq
+    unfold Period.lastYear at hq; rw [hty] at hq; simp only [bind, Except.bind] at hq
+    obtain ⟨_, hqe⟩ := offset_n_ok _ _ _ _ hq
+    rw [hqe]; simp only [shiftDate, Option.getD_none]
+    rw [addMonths_first _ _ rfl]
+    simp only [Period.mk.injEq, Date.mk.injEq, true_and, and_true]
+    omega
+  · intro q hq
+    unfold Period.n2 at hq; rw [hty] at hq; simp only [bind, Except.bind] at hq
+    obtain ⟨_, hqe⟩ := offset_n_ok _ _ _ _ hq
+    rw [hqe]; simp only [shiftDate, Option.getD_none]
+    rw [addMonths_first _ _ rfl]
+    simp only [Period.mk.injEq, Date.mk.injEq, true_and, and_true]
+    omega
+
 end OFCore
